@@ -282,10 +282,29 @@ impl Jsonify for Value {
       Value::List(items) => items.jsonify(),
       Value::Number(value) => value.jsonify(),
       Value::Null(_) => "null".to_string(),
-      Value::String(s) => format!("\"{}\"", s),
-      _ => format!("jsonify not implemented for: {}", self),
+      Value::String(s) => format!("\"{}\"", json_escape(s)),
+      _ => format!("\"{}\"", json_escape(&self.to_string())),
     }
   }
+}
+
+/// Escapes a text for use between the quotation marks of a `JSON` string.
+pub(crate) fn json_escape(text: &str) -> String {
+  let mut escaped = String::with_capacity(text.len());
+  for ch in text.chars() {
+    match ch {
+      '"' => escaped.push_str("\\\""),
+      '\\' => escaped.push_str("\\\\"),
+      '\u{08}' => escaped.push_str("\\b"),
+      '\t' => escaped.push_str("\\t"),
+      '\n' => escaped.push_str("\\n"),
+      '\u{0C}' => escaped.push_str("\\f"),
+      '\r' => escaped.push_str("\\r"),
+      ch if (ch as u32) < 0x20 => escaped.push_str(&format!("\\u{:04x}", ch as u32)),
+      ch => escaped.push(ch),
+    }
+  }
+  escaped
 }
 
 impl Value {
